@@ -18,8 +18,7 @@ variable {K : Type} [Field K] [LinearOrder K] [IsStrictOrderedRing K]
 
 /-- the subset gradient is the "subset gradient plus sensitivity" minus the subset sensitivity, voxel by voxel,
     exactly (thresholds, end-plane clearing, trivial / non-trivial normalisation included), when the sensitivity is
-    computed with the same projector on the same viewgrams (for which viewgrams that is not the case in the code see
-    `C05_sensitivity_reads_subset_fails`) -/
+    computed with the same projector on the same viewgrams (i.e. not for TOF data with a non-TOF sensitivity projector) -/
 theorem C05_grad_eq_gradPlusSens_sub_sens (c : Consts K) (zero : Bool) (img : Nat → K) (S : List (Viewgram K)) (v : Nat) :
     grad c zero img S v = gradPlusSens c zero img S v - sens zero S v :=
   grad_eq_gradPlusSens_sub_sens c zero img S v
@@ -49,7 +48,7 @@ theorem C05_sum_over_subsets_value (c : Consts K) (log : K → K) (zero : Bool) 
   value_sum_over_subsets c log zero img Ss All h
 
 /-- Hessian times input, accumulated subset after subset into the same output (`accumulate_Hessian_times_input`),
-    is the Hessian times input of the full data (as read by the function, see `C05_hessian_reads_*`) -/
+    is the Hessian times input of the full data -/
 theorem C05_sum_over_subsets_hessTimes (c : Consts K) (img x : Nat → K) (Ss : List (List (Viewgram K)))
     (All : List (Viewgram K)) (h : Ss.flatten.Perm All) (out0 : K) (v : Nat) :
     Ss.foldl (fun o S => hessTimes c img x o S v) out0 = hessTimes c img x out0 All v := by
@@ -81,21 +80,16 @@ theorem C05_penalised_sum_over_subsets {α} (q : α → K) (p : K) (Ss : List α
     sumMap (fun S => penalised (q S) p (Ss.length : K)) Ss = sumMap q Ss - p :=
   penalised_sum q p Ss hn
 
-/-- the full statement for the Hessian products: the share subtracted is the prior's Hessian applied to the *input* -/
-def C05_penalised_hessian : Prop :=
-  ∀ (q priorOfInput priorOfOutput n : ℚ), penalisedHess q priorOfInput priorOfOutput n = penalised q priorOfInput n
+/-- the Hessian products (`accumulate_sub_Hessian_times_input`, `add_multiplication_with_approximate_sub_Hessian`): the share
+    subtracted is the prior's Hessian applied to the *input*, divided by the number of subsets
+    (GeneralisedObjectiveFunction.cxx:295, :397 since 119733357; the harness oracle checks on the implementation that it
+    is not the prior's Hessian applied to the output) -/
+theorem C05_penalised_hessian (q priorOfInput n : K) : penalisedHess q priorOfInput n = penalised q priorOfInput n := rfl
 
-/-- the code applies the prior's Hessian to its own output: the clause holds only where that makes no difference -/
-theorem C05_penalised_hessian_partial (q priorOfInput priorOfOutput n : K) (h : priorOfOutput = priorOfInput) :
-    penalisedHess q priorOfInput priorOfOutput n = penalised q priorOfInput n := by
-  unfold penalisedHess penalised; rw [h]
-
-/-- negative witness (replayed on the implementation by the harness oracle, key
-    `penalised-hessian:prior-hessian-applied-to-output`) -/
-theorem C05_penalised_hessian_fails : ¬ C05_penalised_hessian := by
-  intro h
-  have := h 1 1 2 1
-  norm_num [penalisedHess, penalised] at this
+/-- … so that over all subsets the Hessian shares, too, add up to the whole prior Hessian term -/
+theorem C05_penalised_hessian_sum_over_subsets {α} (q : α → K) (priorOfInput : K) (Ss : List α) (hn : Ss ≠ []) :
+    sumMap (fun S => penalisedHess (q S) priorOfInput (Ss.length : K)) Ss = sumMap q Ss - priorOfInput :=
+  penalised_sum q priorOfInput Ss hn
 
 /-! ## "… equal the expressions derived from L = Σ_b [y_b log(ybar_b) − ybar_b] with ybar = n(Pλ + a) … wherever ybar_b > 0"
 The code's thresholds appear as the regular regions `RegularGrad`, `RegularValue`, `RegularHess` (ProofsTextbook.lean). -/
@@ -204,8 +198,7 @@ def C05_hess_is_derivative_of_grad : Prop :=
       HasDerivAt (fun t => grad c zero (shiftX img x t) S v) (hessTimes c img x 0 S v) 0
 
 /-- proved for `zero_seg0_end_planes = false` (the Hessian functions read the viewgrams directly and never clear the end
-    planes; for `true` see `C05_textbook_on_regular_hessTimes_fails`) and for the viewgrams the function reads
-    (see `C05_hessian_reads_subset_fails` for TOF data) -/
+    planes; for `true` see `C05_textbook_on_regular_hessTimes_fails`) -/
 theorem C05_hessian_end_planes_partial (c : Consts ℝ) (hq : 0 < c.maxQuot) (img x : Nat → ℝ) (S : List (Viewgram ℝ)) (v : Nat)
     (h : StrictRegularGrad c false img S) (hH : RegularHess c img x S) :
     HasDerivAt (fun t => grad c false (shiftX img x t) S v) (hessTimes c img x 0 S v) 0 := by
@@ -229,53 +222,6 @@ example : 0 < exCR.maxQuot ∧ StrictRegular exCR true exImgR exSR ∧ StrictReg
     simp only [exSR, List.forall_mem_cons, List.not_mem_nil, false_imp_iff, implies_true, and_true]
     norm_num [exR1, exR2, exR3, exCR, exImgR, smallOf, vgMax, maxK, yEff, zeroed, ybarTB, fwd, sumMap]
 
-/-! ### which viewgrams the Hessian functions read -/
-
-/-- the full statement: the Hessian functions process the viewgrams of the subset -/
-def C05_hessian_reads_subset : Prop := ∀ (tof0 : Nat → Nat) (S : List Nat), hessReads tof0 S = S
-
-/-- proved part: for non-TOF data (every viewgram is its own "timing position 0" sibling) they do -/
-theorem C05_hessian_reads_subset_partial (tof0 : Nat → Nat) (S : List Nat) (h : ∀ i ∈ S, tof0 i = i) :
-    hessReads tof0 S = S := by
-  unfold hessReads
-  induction S with
-  | nil => rfl
-  | cons i S ih =>
-    simp only [List.map_cons, h i (by simp)]
-    rw [ih (fun j hj => h j (by simp [hj]))]
-
-/-- negative witness: three TOF bins per (segment, view), ids `3k + t`: the viewgrams 0,1,2 (one view, TOF bins −1,0,1
-    in some numbering with sibling 0) are all processed as viewgram 0
-    (replayed on the implementation by the harness oracle, key `hessian:tof-data-processed-at-timing-pos-0`) -/
-theorem C05_hessian_reads_subset_fails : ¬ C05_hessian_reads_subset := by
-  intro h
-  have := h (fun i => i - i % 3) [0, 1, 2]
-  revert this
-  decide
-
-/-- the full statement: the sensitivity back-projects along the rows of the viewgrams of the subset -/
-def C05_sensitivity_reads_subset : Prop :=
-  ∀ (trivialNorm zero : Bool) (tof0 : Nat → Nat) (S : List Nat), sensReads trivialNorm zero tof0 S = S
-
-/-- proved part: it does unless the normalisation is trivial *and* `zero_seg0_end_planes` is set, and then still for non-TOF data -/
-theorem C05_sensitivity_reads_subset_partial (trivialNorm zero : Bool) (tof0 : Nat → Nat) (S : List Nat)
-    (h : (trivialNorm && zero) = false ∨ ∀ i ∈ S, tof0 i = i) : sensReads trivialNorm zero tof0 S = S := by
-  unfold sensReads
-  rcases h with h | h
-  · simp [h]
-  · split
-    · exact C05_hessian_reads_subset_partial tof0 S h
-    · rfl
-
-/-- negative witness: trivial normalisation, `zero_seg0_end_planes`, three TOF bins: the ones that are back-projected are
-    viewgrams of timing position 0 (replayed on the implementation by the harness oracle, key
-    `sensitivity:tof-zero-end-planes-trivial-norm-at-timing-pos-0`) -/
-theorem C05_sensitivity_reads_subset_fails : ¬ C05_sensitivity_reads_subset := by
-  intro h
-  have := h true true (fun i => i - i % 3) [0, 1, 2]
-  revert this
-  decide
-
 /-! ## the executable accumulation used by the driver is the image of the model -/
 
 theorem C05_accumulate_is_image (n : Nat) (cs : List (Nat × K)) (v : Nat) (hv : v < n) :
@@ -285,50 +231,37 @@ theorem C05_accumulate_is_image (n : Nat) (cs : List (Nat × K)) (v : Nat) (hv :
 /-! ## "The results do not depend on the order in which value, gradient, sensitivity and Hessian products are
 first requested after set-up" — the set-up flags -/
 
-/-- the full statement: for every configuration, both values of each member without initialiser, every history of
-    requests after `set_up`: every request is served (no "internal error") with the projectors handed to
-    `setup_distributable_computation` and the normalisation set-up that the request needs -/
-def C05_setup_machine_correct : Prop :=
-  ∀ (sameProj recompute : Bool) (numSubsets : Nat) (g g2 : Bool) (rs : List Req), 0 < numSubsets →
-    ∀ b ∈ run sameProj (St.afterSetUp sameProj recompute numSubsets g g2) rs, b = true
+/-- for every configuration (same / separate sensitivity projector, sensitivities computed by `set_up` or not, any number
+    of subsets), both values of each of the two members without initialiser, every history of requests after `set_up`:
+    every request is served (no "internal error: setup_distributable_computation not called") with the projectors handed
+    to `setup_distributable_computation` and the normalisation set-up that the request needs.  (Before 577b3b1e1 the value
+    path tested `already || !latest` and this failed for: no recomputation, indeterminate member `true`, value first.) -/
+theorem C05_setup_machine_correct (sameProj recompute : Bool) (numSubsets : Nat) (g g2 : Bool) (rs : List Req) :
+    ∀ b ∈ run sameProj (St.afterSetUp sameProj recompute numSubsets g g2) rs, b = true :=
+  run_ok sameProj _ (inv_afterSetUp sameProj recompute numSubsets g g2) rs
 
-/-- proved part: it holds whenever `set_up` computes the sensitivities (the default), for both values of both
-    indeterminate members, and also without recomputation if the indeterminate member
-    `latest_setup_distributable_computation_was_with_orig_projectors` happens to be `false` -/
-theorem C05_setup_machine_correct_partial (sameProj recompute : Bool) (numSubsets : Nat) (g g2 : Bool) (rs : List Req)
-    (hn : 0 < numSubsets) (h : recompute = true ∨ g = false) :
-    ∀ b ∈ run sameProj (St.afterSetUp sameProj recompute numSubsets g g2) rs, b = true := by
-  apply run_ok
-  rcases h with h | h
-  · subst h; exact inv_afterSetUp_recompute sameProj numSubsets hn g g2
-  · subst h
-    cases recompute
-    · exact inv_afterSetUp_norecompute sameProj numSubsets g2
-    · exact inv_afterSetUp_recompute sameProj numSubsets hn false g2
+/-- the members without initialiser are never consulted in a way that matters: the outcome of every history is the same
+    for all four combinations of their indeterminate values -/
+theorem C05_setup_machine_indeterminate_irrelevant (sameProj recompute : Bool) (numSubsets : Nat) (g g2 g' g2' : Bool) (rs : List Req) :
+    run sameProj (St.afterSetUp sameProj recompute numSubsets g g2) rs =
+      run sameProj (St.afterSetUp sameProj recompute numSubsets g' g2') rs := by
+  have hlen : ∀ (s : St) (rs : List Req), (run sameProj s rs).length = rs.length := by
+    intro s rs; induction rs generalizing s with
+    | nil => rfl
+    | cons r rs ih => simp [run, ih]
+  apply List.ext_getElem
+  · rw [hlen, hlen]
+  · intro i h1 h2
+    rw [C05_setup_machine_correct sameProj recompute numSubsets g g2 rs _ (List.getElem_mem h1),
+      C05_setup_machine_correct sameProj recompute numSubsets g' g2' rs _ (List.getElem_mem h2)]
 
-/-- negative witness: sensitivities not recomputed by `set_up` (read from file / set to 1), indeterminate member `true`,
-    first request = value: the condition at .cxx:742 (`already || !latest`, where the gradient path has
-    `!already || !latest`) does not set up and the library raises its internal error
-    (replayed on the implementation by the harness, key `setup-flag:order-dependent-value`) -/
-theorem C05_setup_machine_correct_fails : ¬ C05_setup_machine_correct := by
-  intro h
-  have := h true false 1 true false [Req.value] (by decide) false
-  revert this
-  decide
+/-- non-vacuity / regression: the history on which the code before 577b3b1e1 raised its internal error (sensitivities not
+    recomputed, indeterminate member `true`, value first) and a history using all kinds of request with TOF data and a
+    non-TOF sensitivity projector -/
+example : run true (St.afterSetUp true false 1 true false) [Req.value, Req.gradient false] = [true, true] := by decide
 
-/-- … for every configuration, and whatever follows; a gradient request first makes the same value request succeed -/
-theorem C05_setup_machine_value_first_fails (sameProj : Bool) (n : Nat) (g2 : Bool) (rs : List Req) :
-    (run sameProj (St.afterSetUp sameProj false n true g2) (Req.value :: rs)).head? = some false ∧
-      (run sameProj (St.afterSetUp sameProj false n true g2) [Req.gradient false, Req.value]) = [true, true] := by
-  unfold St.afterSetUp
-  simp only [Bool.false_eq_true, if_false, run, List.head?_cons]
-  revert sameProj g2
-  decide
-
-/-- the hypotheses of the partial theorem are those of real use: default configuration, 2 subsets, TOF data with a
-    non-TOF sensitivity projector, a history using all kinds of request -/
-example : ∀ b ∈ run false (St.afterSetUp false true 2 true true)
-    [Req.value, Req.gradient false, Req.sensitivity, Req.hessian, Req.gradient true, Req.approxHessian, Req.value], b = true :=
-  C05_setup_machine_correct_partial false true 2 true true _ (by decide) (Or.inl rfl)
+example : run false (St.afterSetUp false true 2 true true)
+    [Req.value, Req.gradient false, Req.sensitivity, Req.hessian, Req.gradient true, Req.approxHessian, Req.value]
+      = [true, true, true, true, true, true, true] := by decide
 
 end StirVerif.C05
